@@ -50,7 +50,8 @@ type Attempt struct {
 // Act is "do What (close | cancel) when the subscriber reaches Gate".
 // Gates: before, race, end, init:k, sub:k, recv:k:i, h:k:n (n-th handler
 // invocation of attempt k), disc:k, reset:k, sleep:k (Delay microseconds after
-// the disconnect callback of attempt k returned, not parked).
+// the disconnect callback of attempt k returned, not parked), postsub:k (Delay
+// microseconds after Impl.Subscribe of attempt k returned, not parked).
 // Delay: microseconds to wait after the act before the subscriber continues.
 type Act struct {
 	Gate  string `json:"gate"`
@@ -355,9 +356,34 @@ func gnmiMsg(k, i, n int) *gpb.SubscribeResponse {
 	return &gpb.SubscribeResponse{Response: &gpb.SubscribeResponse_Update{Update: no}}
 }
 
+// later performs the acts bound to an unparked gate: Delay microseconds from
+// now, concurrently with the subscriber.
+func (s *scen) later(name string) {
+	for idx, a := range s.c.Ops {
+		if a.Gate != name {
+			continue
+		}
+		s.mu.Lock()
+		done := s.fired[idx]
+		s.fired[idx] = true
+		s.mu.Unlock()
+		if !done {
+			a := a
+			go func() {
+				time.Sleep(time.Duration(a.Delay) * time.Microsecond)
+				if !s.isDead() {
+					s.act(a, false)
+				}
+			}()
+		}
+	}
+}
+
 func (m *impl) Subscribe(ctx context.Context, q client.Query) error {
 	m.s.log(Ev{T: "implsub", K: m.k})
 	m.s.gate(fmt.Sprintf("sub:%d", m.k))
+	// postsub:k: while the client installs the transport and enters its read loop
+	defer m.s.later(fmt.Sprintf("postsub:%d", m.k))
 	if !m.a.Sub || ctx.Err() != nil {
 		return errImpl
 	}
@@ -750,6 +776,7 @@ func gates(as []Attempt, reconnect bool) []string {
 			gs = append(gs, fmt.Sprintf("sub:%d", k))
 		}
 		if a.Init && a.Sub {
+			gs = append(gs, fmt.Sprintf("postsub:%d", k))
 			h := 0
 			conn := false
 			ended := false
@@ -973,7 +1000,7 @@ func main() {
 		}
 		delays := []int{0}
 		if o.Thorough() {
-			delays = []int{0, 300, 2000}
+			delays = []int{0, 50, 300, 2000}
 		}
 		for _, as := range scripts() {
 			for ki, kind := range kinds {
@@ -997,9 +1024,9 @@ func main() {
 			}
 		}
 		r := vh.NewRand(o.Seed)
-		nrand := 2500
+		nrand := 4000
 		if o.Thorough() {
-			nrand = 30000
+			nrand = 120000
 		}
 		for i := 0; i < nrand; i++ {
 			rr := r.Fork()
